@@ -405,7 +405,9 @@ class Header(Field):
 
         else:
             # old-format length
-            ##TODO: what if _llen needs to be (re)computed?
+            # widen the length field if the body has outgrown the width it was parsed with
+            if self._llen > 0 and self.length >= (1 << (8 * self._llen)):
+                return 2 if self.length < (1 << 16) else 4
             return self._llen
 
     @llen.register(int)
